@@ -101,6 +101,45 @@ CHECKS = {
         text="Prange.tla proves slot discipline for every interleaving (the shared-scratch variant must show the race); every call history of AnalyzerHist.tla and every/simulated access history of Result.tla is "
              "executed on real objects and each answer compared bitwise with a fresh object's; the six Numba kernels and a full analysis run under every thread count x chunk size and must equal the single-thread digest.",
         note="A race that never manifests in the executed runs is not observed; the model shows the design is race free."),
+    "C12": dict(
+        level="other", design="DESIGN.md §3 C12",
+        technique="TLA+ pipeline model (Kaiser.tla) checked by TLC + TLC trace validation (KaiserTrace.tla) of captured Kaiser calls and of measured side-lobe leakage against the property's bound (contract trace)",
+        text="TLA+ does not model why a Kaiser window has its side-lobe level. The construction pipeline (alpha polynomial in fixed point, beta = pi*alpha, L+1 points, last dropped, DFT-even) is a model whose "
+             "postconditions are bound to the code by a recording shim over the Kaiser function; the property's bound -(P-1) dB is evaluated by TLC on responses measured with compute_single_bin beyond "
+             "sqrt(1+alpha^2) bins, for ascending and descending P within one process, L from 64 to 65536.",
+        note="Contract trace: the analytic truth is not derived; the bound is the property's own. Known finding at P>=195, L<80 (0.33 dB beyond the allowance)."),
+    "C15": dict(
+        level=MC, design="DESIGN.md §3 C15",
+        technique="TLA+ model (Miso.tla: residual formula vs least squares over Gaussian rationals) checked by TLC + replay through both solvers with stubbed exact spectra + TLC trace validation of random systems (MisoTrace.tla)",
+        text="For q = 1, 2 TLC checks on every Gram matrix of the scope that the solvers' formula is real, within [0, S00], equals the least-squares residual, vanishes for exact combinations, is invariant under "
+             "permutation and unimodular re-mixing and equals Gyy(1-coh) for one input (complex H included); every case is replayed through the analytic, numeric and SISO code paths with stubbed spectra; "
+             "random systems with q = 1..4 and permuted / re-mixed / rescaled inputs, exact combinations and both solvers are validated per bin.",
+        note="Clauses asserted on bins with more than q segments (singular otherwise). Stub of speckit.systems.ltf is harness side."),
+    "C16": dict(
+        level=MC, design="DESIGN.md §3 C16",
+        technique="TLA+ models (Timeshift.tla exact taps / stencils / both paths; DfWrapper.tla case table) checked by TLC + replay into lagrange_taps, timeshift, df_timeshift + TLC trace validation for orders up to 111 (TimeshiftTrace.tla)",
+        text="Exact rational Lagrange taps and outputs for every (record, order 1/3/5, integer part in -(N+2)..(N+2), fraction) with TLC-checked invariants (taps sum to one, polynomial reproduction, integer shift = "
+             "displacement with held ends, zero shift = identity, path agreement); every case replayed (values, input immutability, repeatability); wrapper table replayed incl. non-default index and long delays; "
+             "high orders through quantised relations.",
+        note="Orders above 5 only through relations (sum, polynomial reproduction to degree 6, path agreement)."),
+    "C17": dict(
+        level=MC, design="DESIGN.md §3 C17",
+        technique="TLA+ models (Noise.tla stream positions / filter-state hand-over / prefetch buffer; Iir.tla exact cascade) checked by TLC + replay of every history on the four generators bitwise against a twin + TLC trace validation of long call sequences (NoiseTrace.tla)",
+        text="Every history of get_series/get_sample calls (sizes 0,1,2,3,7) is executed on white/red/alpha/pink generators and each block compared bitwise with the twin's single request at the model's stream position; "
+             "the unrepaired zero-block variant must violate FilterStateConsistent; exact dyadic cascades with every split point are replayed into _numba_lfilter_cascade and scipy.lfilter; long random sequences (blocks beyond 2^16) are validated.",
+        note="Prefetch size scaled through the module global; bitwise comparisons within one process."),
+    "C18": dict(
+        level=MC, design="DESIGN.md §3 C18",
+        technique="TLA+ model (FftNoise.tla Hermitian mirror index logic) checked by TLC + replay into fftnoise / band_limited_noise + contract trace for the shaping filter (FilterTrace.tla)",
+        text="The mirror/real-bin logic is model-checked for odd and even lengths (the variant forcing bin N div 2 real for odd N must fail); every length x magnitude pattern is replayed (DFT magnitudes, real output, "
+             "input untouched), band-limited noise on a band grid; the 1/f^alpha filter response computed from the generator's own coefficients is validated against the property's tolerance, with coefficient structure and white variance.",
+        note="Filter-response clause is a contract trace (level 'other' for that clause): bounds 1.5 dB interior / 3.5 dB to the corners."),
+    "C19": dict(
+        level=MC, design="DESIGN.md §3 C19",
+        technique="TLA+ model (TimeDomain.tla exact LSQ residual and trapezoid band integral) checked by TLC + replay into polynomial_detrend, integral_rms, get_rms, df_detrend + TLC trace validation (TimeDomainTrace.tla)",
+        text="Orthogonality, polynomial -> 0, idempotence and the order fallback are invariants of the exact residual; additivity at grid points, nesting and degenerate bands are invariants of the exact trapezoid integral "
+             "over all half-integer bands; every case replayed; orders 3-5, random grids, swapped ends, cross-result error and the Parseval contract through traces.",
+        note="Parseval clause is a contract trace on fixed white and pink records (5 %)."),
 }
 
 NOT_YET = "no check registered yet in this round (specification and driver under construction; see DESIGN.md §8)"
